@@ -403,3 +403,65 @@ Proof.
   - unfold ord_inputs in Ho. apply filter_In in Ho. destruct Ho as [_ Ho]. apply Z.eqb_eq. exact Ho.
   - rewrite Forall_forall in H. apply H. exact Ho.
 Qed.
+
+(* ---- open-order details along a tracking episode (in-flight recordings interleaved) ------------- *)
+
+Lemma ts_oreg : forall (s : orders) c, ts s c = option_map fst (oreg (s c)).
+Proof.
+  intros s c. unfold ts, oreg. destruct (s c) as [o|]; [|reflexivity].
+  destruct (held (o_state o)); reflexivity.
+Qed.
+
+(** while an id stays tracked and no new open request for it is recorded, held open data is never
+    dropped ... *)
+Lemma details_not_dropped : forall s o c t,
+  ts s c = Some t -> step s o c <> None ->
+  (forall r, o = RecOpen r -> k_cid (o_key r) <> c) ->
+  ts (step s o) c <> None.
+Proof.
+  intros s o c t Ht Hn Hno. destruct (Z.eq_dec (cid_of o) c) as [E|E].
+  2:{ unfold ts in *. rewrite step_frame by auto. congruence. }
+  subst c. unfold ts in *. destruct (s (cid_of o)) as [x|] eqn:Ex; [|discriminate].
+  destruct x as [k sd p q kd tf st]. simpl in Ht.
+  destruct o as [r|k0|sn|k0 ok]; unfold cid_of in *; simpl in *.
+  - exfalso. apply (Hno r eq_refl). reflexivity.
+  - unfold record_cancel_step in *. rewrite Ex in *. rewrite upd_same in *. simpl.
+    destruct st as [|m|[m|]]; simpl in *; congruence.
+  - revert Hn. unfold snapshot_step, to_active. rewrite Ex. simpl.
+    destruct st as [|cm|[cm|]]; try discriminate;
+      destruct (o_state sn) as [[|m|[um|]]|ist]; simpl;
+      repeat break_match; rewrite ?upd_same, ?Ex; simpl; intros;
+      repeat match goal with H : context [upd _ _ _ _] |- _ => rewrite upd_same in H end;
+      try congruence;
+      match goal with H : Some _ = Some _ |- _ => injection H as H; subst end; simpl in *; congruence.
+  - revert Hn. unfold cancel_response_step. rewrite Ex. simpl.
+    destruct st as [|cm|[cm|]]; try discriminate; destruct ok; simpl;
+      repeat break_match; rewrite ?upd_same, ?Ex; simpl; intros;
+      repeat match goal with H : context [upd _ _ _ _] |- _ => rewrite upd_same in H end;
+      try congruence;
+      match goal with H : Some _ = Some _ |- _ => injection H as H; subst end; simpl in *; congruence.
+Qed.
+
+(** ... and its exchange timestamp never decreases *)
+Theorem details_persist : forall s o c t,
+  ts s c = Some t -> step s o c <> None ->
+  (forall r, o = RecOpen r -> k_cid (o_key r) <> c) ->
+  exists t', ts (step s o) c = Some t' /\ t <= t'.
+Proof.
+  intros s o c t Ht Hn Hno.
+  destruct (ts (step s o) c) as [t'|] eqn:E.
+  - exists t'. split; [reflexivity|]. eapply step_ts_monotone; eauto.
+  - exfalso. eapply details_not_dropped; eauto.
+Qed.
+
+(** an open report with something left and exchange time T leaves the id tracked with open data
+    at least as recent as T, whatever was recorded in flight before *)
+Theorem open_report_floor : forall s o T m,
+  open_report o = Some (T, m) ->
+  exists t', ts (step s o) (cid_of o) = Some t' /\ T <= t'.
+Proof.
+  intros s o T m H. rewrite ts_oreg, (open_report_is_put_le s o (T, m) H).
+  destruct (oreg (s (cid_of o))) as [[t0 v0]|]; simpl.
+  - destruct (Z.leb_spec t0 T); simpl; eexists; split; try reflexivity; lia.
+  - eexists. split; [reflexivity|lia].
+Qed.
